@@ -9,6 +9,7 @@ import Dagrt.Driver.C20
 import Dagrt.Driver.C13
 import Dagrt.Driver.C18
 import Dagrt.Driver.C16
+import Dagrt.Driver.C17
 open Lean Dagrt.Driver
 
 def dispatch (j : Json) : R Json := do
@@ -21,6 +22,7 @@ def dispatch (j : Json) : R Json := do
   | ["C08", o] => C08.handle o j
   | ["C10", o] => C10.handle o j
   | ["C16", o] => C16.handle o j
+  | ["C17", o] => C17.handle o j
   | ["C18", o] => C18.handle o j
   | ["C20", o] => C20.handle o j
   | ["C13", o] => C13.handle o j
